@@ -257,11 +257,16 @@ def check_angles(idx: Index, rep: Report, c: ClassInfo):
 def check_support_change(idx: Index, rep: Report, c: ClassInfo):
     rule = "K8.support-change"
     upd = idx.find_method(c, "update_var_params")
-    rebuild = [n for n in ast.walk(upd.node) if isinstance(n, ast.If) and norm(n.test).startswith("set(") and "!=" in norm(n.test)
-               and any("self.build_circuit(" in norm(s) for s in n.body)]
+    rebuild = [n for n in ast.walk(upd.node) if isinstance(n, ast.If) and any("self.build_circuit(" in norm(s) for s in n.body)]
     if rebuild:
-        t = norm(rebuild[0].test)
-        rep.ok(rule, upd, rebuild[0], text=f"{c.name}: rebuilds when the set of words changes ({t[:60]})", what="a changed set of Pauli words triggers a rebuild")
+        t = rebuild[0].test
+        two_sided = isinstance(t, ast.Compare) and len(t.ops) == 1 and isinstance(t.ops[0], ast.NotEq) and \
+            all(norm(x).startswith("set(") or norm(x).endswith(".keys()") for x in (t.left, t.comparators[0]))
+        rep.decide(two_sided, rule, upd, rebuild[0], text=f"{c.name}: rebuilds when the set of words changes ({norm(t)[:70]})",
+                   what="the circuit is rebuilt whenever the set of Pauli words differs from the one it was built for - words appearing AND words disappearing "
+                        "(a word that disappears keeps its old angle otherwise)",
+                   reason=f"rebuild condition `{norm(t)[:90]}` is not the inequality of the two key sets: when a word drops out of the operator (a parameter "
+                          f"becomes zero) its gate keeps the previous angle and the updated circuit differs from a rebuilt one")
         return
     bld = idx.find_method(c, "build_circuit")
     skipping = "get_exponentiated_qubit_operator_circuit" in full(bld.node)
